@@ -152,7 +152,7 @@ def gen_programs(rng, n):
 
     fam = 0
     while len(progs) < n:
-        f = fam % 13
+        f = fam % 14
         fam += 1
         if f == 0:  # two objects, collisions, box workspace
             a, b = rng.choice(small), rng.choice(small)
@@ -277,6 +277,15 @@ def gen_programs(rng, n):
                     _obj("longwall", wallpos, occ=1),
                     _obj("cube", tpos, vis=1 if kind == "vis" else 0, rv=1 if kind == "rv" else 0)]
             progs.append(_prog(objs, [], 0, [], f"long occluding wall, centre out of range ({kind})", vd=vd))
+        elif f == 13:  # TALL thin objects stacked with a vertical offset: they overlap (or not) although their centres
+            # are farther apart than the sum of their planar radii
+            sh = "brick"
+            h = int(G.CAT[CI[sh] - 1]["dims"][2] * G.S)
+            dz = [_even(h - 2), _even(h + 2), -_even(h - 4)]          # overlapping by 1/2, clear by 1/2, overlapping by 1
+            pos = [[0, 0, z] for z in rng.sample(dz, 2)] + [[_even(rng.choice((2, 8))), 0, dz[0]]]
+            objs = [_obj(sh, [[0, 0, 0]], rot=[rng.choice(YAW_ONLY)]),
+                    _obj(sh, pos, rot=[rng.choice(YAW_ONLY)])]
+            progs.append(_prog(objs, [], 0, [], "tall thin objects with a vertical offset"))
         else:  # non-planar poses in an L-shaped room
             a, b = rng.choice(small), rng.choice(small)
             objs = [_obj(a, near(rng, 2, 6), rot=[rng.randrange(5, 25)]),
